@@ -2,7 +2,7 @@
    history whose operations meet the callers' discipline [a_pre], including
    reverts to any valid revision. *)
 From VF.C08 Require Import Model Abstract.
-From Coq Require Import Lia ZifyBool.
+From Coq Require Import Lia ZifyBool Setoid.
 Local Open Scope Z_scope.
 
 (* ---- sorted association lists ------------------------------------------- *)
@@ -374,6 +374,8 @@ Qed.
 
 Definition tot (m : list (Z * xval)) : stat := total (map (fun p => fst (snd p)) m).
 
+Arguments tot : simpl never.
+
 Lemma tot_cons k x m : tot ((k, x) :: m) = stat_plus (contrib (fst x)) (tot m).
 Proof. reflexivity. Qed.
 
@@ -666,13 +668,16 @@ Lemma vundo_update c a nw old :
   c_vundo1 (c_update_validator c a nw old) (XUpdate a nw old) = c.
 Proof.
   intros G Hold Hnw. pose proof (g_vals _ G _ _ Hold) as Hok.
-  unfold c_vundo1, c_update_validator, c_set_validator. destruct c as [m idx st ac]; cbn in *.
+  pose proof (g_stat _ G) as Hst. pose proof (index_present _ _ _ G Hold) as Hi.
+  pose proof (goodV_nonneg_rest _ a G) as Hnn. pose proof (g_sorted _ G) as Hs.
+  unfold c_vundo1, c_update_validator, c_set_validator, c_stat, c_index, c_xs.
+  destruct c as [m idx st ac]; cbn in *.
   f_equal.
-  - apply sset_sset_back; [apply G|assumption].
-  - pose proof (index_present _ _ _ G Hold) as Hi. cbn in Hi. rewrite Hi, Hi. reflexivity.
-  - rewrite (g_stat _ G); cbn. rewrite (tot_adel _ _ _ Hold).
-    rewrite adjust_wrap; [|apply Hnw | apply Hok | apply (goodV_nonneg_rest _ a G)].
-    apply adjust_wrap; [apply Hok | apply Hnw | apply (goodV_nonneg_rest _ a G)].
+  - apply sset_sset_back; assumption.
+  - rewrite Hi, Hi. reflexivity.
+  - rewrite Hst, (tot_adel _ _ _ Hold).
+    rewrite adjust_wrap; [|apply Hnw | apply Hok | assumption].
+    apply adjust_wrap; [apply Hok | apply Hnw | assumption].
 Qed.
 
 (* adding a new validator *)
@@ -693,13 +698,15 @@ Lemma vundo_create c a x :
   GoodV c -> aget (xs c) a = None -> val_ok a x ->
   c_vundo1 (let c1 := c_set_validator c a x in c_stat c1 (a_incr (xstat c1) (fst x))) (XCreate a) = c.
 Proof.
-  intros G Hn Hx. unfold c_vundo1, c_set_validator. destruct c as [m idx st ac]; cbn in *.
+  intros G Hn Hx. pose proof (g_stat _ G) as Hst. pose proof (g_index _ G) as Hix.
+  pose proof (goodV_nonneg _ G) as Hnn. pose proof (g_sorted _ G) as Hs.
+  unfold c_vundo1, c_set_validator, c_stat, c_index, c_xs. destruct c as [m idx st ac]; cbn in *.
   rewrite aget_sset_same. destruct x as [v l]; cbn in *. f_equal.
-  - apply adel_sset_absent; [apply G|assumption].
-  - rewrite (g_index _ G); cbn. apply srem_sins_absent; [apply ssorted_keys, G|].
+  - apply adel_sset_absent; assumption.
+  - rewrite Hix. apply srem_sins_absent; [apply ssorted_keys, Hs|].
     rewrite aget_keys. intros H; apply H, Hn.
-  - rewrite (g_stat _ G); cbn. unfold a_incr. rewrite incr_wrap by apply Hx. cbn [ostat].
-    unfold a_decr. rewrite decr_wrap; [reflexivity | apply Hx | apply (goodV_nonneg _ G)].
+  - rewrite Hst. unfold a_incr. rewrite incr_wrap by apply Hx. cbn [ostat].
+    unfold a_decr. rewrite decr_wrap; [reflexivity | apply Hx | assumption].
 Qed.
 
 (* removing a validator *)
@@ -715,4 +722,625 @@ Proof.
   - rewrite (g_stat _ G), (tot_adel _ _ _ Hx). unfold a_decr.
     rewrite decr_wrap; [reflexivity | apply Hok | apply goodV_nonneg_rest, G].
   - rewrite keys_adel, (g_index _ G). reflexivity.
+Qed.
+
+(* ---- forward operations: invariant and exact undo -------------------------- *)
+
+Definition undo_all (c : acore) (ja : list aentry) (jv : list xentry) : acore :=
+  fold_left c_vundo1 jv (fold_left c_aundo1 ja c).
+
+Definition op_sound (c : acore) (e : eff) : Prop :=
+  Good (fst (fst e)) /\ undo_all (fst (fst e)) (snd (fst e)) (snd e) = c.
+
+Lemma tokd_nolink c d : GoodL c -> aget (xaccts c) d = None ->
+  forall k x, In (k, x) (xs c) -> GoodV c -> tokd d x = 0.
+Proof.
+  intros L Hn k x Hin V. unfold tokd. destruct (dget (snd x) d) eqn:E; [|reflexivity].
+  apply dget_In in E as [Hin2 Ha]. exfalso.
+  apply (In_aget _ _ _ (g_sorted _ V)) in Hin.
+  apply (g_owner _ L _ _ _ Hin Hin2). now rewrite Ha.
+Qed.
+
+Lemma fund_sound c d : Good c -> op_sound c (c_fund c d).
+Proof.
+  intros [V L]. unfold c_fund, op_sound, undo_all.
+  destruct (aget (xaccts c) d) as [ac|] eqn:E; cbn.
+  - split; [split; assumption|reflexivity].
+  - split.
+    + split.
+      * destruct V; constructor; assumption.
+      * constructor; cbn.
+        -- apply ssorted_sset, L.
+        -- intros d' bal lst. destruct (Z.eq_dec d' d) as [->|Hne].
+           ++ rewrite aget_sset_same. intros H; inversion H; subst. exact I.
+           ++ rewrite aget_sset_other by assumption. apply L.
+        -- intros d' bal lst a. destruct (Z.eq_dec d' d) as [->|Hne].
+           ++ rewrite aget_sset_same. intros H; inversion H; subst. split; [intros []|].
+              intros (x & Hx & Hd). exfalso. destruct (dget (snd x) d) eqn:G; [|congruence].
+              apply dget_In in G as [Hin Ha]. apply (g_owner _ L _ _ _ Hx Hin). now rewrite Ha.
+           ++ rewrite aget_sset_other by assumption. apply L.
+        -- intros d' bal lst. destruct (Z.eq_dec d' d) as [->|Hne].
+           ++ rewrite aget_sset_same. intros H; inversion H; subst. symmetry. apply lsum_zero.
+              intros k x Hin. eapply tokd_nolink; eauto.
+           ++ rewrite aget_sset_other by assumption. apply L.
+        -- intros a x e0 Hx Hin. destruct (Z.eq_dec (d_addr e0) d) as [Heq|Hne].
+           ++ rewrite Heq, aget_sset_same. discriminate.
+           ++ rewrite aget_sset_other by assumption. eapply (g_owner _ L); eauto.
+    + unfold c_accts. destruct c as [m idx st ac]; cbn in *. f_equal.
+      apply adel_sset_absent; [apply L|assumption].
+Qed.
+
+Lemma new_validator_ok a role status token stake :
+  role_ok role = true -> 0 <= token -> stake = token / stake_unit ->
+  val_ok a (new_validator a role status token stake 0%nat, []).
+Proof.
+  intros Hr Ht Hs. unfold val_ok, new_validator; cbn. repeat split; try assumption; try lia; try contradiction.
+Qed.
+
+Lemma create_sound c a role status token stake :
+  Good c -> role_ok role = true -> 0 <= token -> stake = token / stake_unit ->
+  op_sound c (c_create c a role status token stake).
+Proof.
+  intros [V L] Hr Ht Hs. unfold c_create, op_sound.
+  destruct (aget (xs c) a) as [x|] eqn:E.
+  - cbn. split; [split; assumption|reflexivity].
+  - pose proof (new_validator_ok a role status token stake Hr Ht Hs) as Hok.
+    cbn [fst snd]. split.
+    + split; [apply (goodV_create c a _ V E Hok)|].
+      unfold c_set_validator, c_stat, c_index, c_xs. constructor; cbn.
+      * apply L.
+      * apply L.
+      * intros d bal lst a' Hd. rewrite (g_link _ L _ _ _ a' Hd).
+        destruct (Z.eq_dec a' a) as [->|Hne].
+        -- rewrite aget_sset_same, E. split; intros (x & Hx & Hg); [discriminate|].
+           inversion Hx; subst. cbn in Hg. congruence.
+        -- rewrite aget_sset_other by assumption. reflexivity.
+      * intros d bal lst Hd. rewrite (lsum_sset_absent _ _ _ _ E). unfold tokd at 1; cbn.
+        rewrite <- (g_bal _ L _ _ _ Hd). lia.
+      * intros a' x e. destruct (Z.eq_dec a' a) as [->|Hne].
+        -- rewrite aget_sset_same. intros H; inversion H; subst. intros [].
+        -- rewrite aget_sset_other by assumption. apply L.
+    + unfold undo_all. cbn [fold_left]. apply (vundo_create c a _ V E Hok).
+Qed.
+
+Lemma upd_ok_val a old l u : val_ok a (old, l) -> upd_ok old u = true -> val_ok a (apply_upd old u, l).
+Proof.
+  intros (H1 & H2 & H3 & H4 & H5 & H6 & H7 & H8 & H9 & H10) Hu. cbn [fst snd] in *.
+  unfold upd_ok in Hu. apply norm_iff in H2 as (Ha & Hl & Hd).
+  unfold val_ok; cbn [fst snd].
+  split; [exact H1|]. split; [apply norm_iff; cbn; auto|].
+  split; [cbn; destruct (role_ok (u_role u)); [reflexivity|discriminate]|].
+  split; [cbn; lia|]. split; [cbn; lia|]. split; [cbn; lia|]. split; [cbn; lia|].
+  split; [exact H8|]. split; cbn; lia.
+Qed.
+
+(* replacing a validator by one with the same delegation list keeps the links *)
+Lemma goodL_same_list c a v v' l :
+  GoodV c -> GoodL c -> aget (xs c) a = Some (v, l) ->
+  GoodL (c_update_validator c a (v', l) (v, l)).
+Proof.
+  intros V L Hx. unfold c_update_validator, c_set_validator, c_stat, c_index, c_xs. constructor; cbn.
+  - apply L.
+  - apply L.
+  - intros d bal lst a' Hd. rewrite (g_link _ L _ _ _ a' Hd).
+    destruct (Z.eq_dec a' a) as [->|Hne].
+    + rewrite aget_sset_same, Hx. split; intros (x & Hx' & Hg); inversion Hx'; subst; eexists; split; eauto.
+    + rewrite aget_sset_other by assumption. reflexivity.
+  - intros d bal lst Hd. rewrite (lsum_sset_present _ _ _ _ _ (g_sorted _ V) Hx).
+    rewrite <- (g_bal _ L _ _ _ Hd). unfold tokd; cbn. lia.
+  - intros a' x e. destruct (Z.eq_dec a' a) as [->|Hne].
+    + rewrite aget_sset_same. intros H; inversion H; subst. cbn. intros Hin.
+      eapply (g_owner _ L _ _ _ Hx). exact Hin.
+    + rewrite aget_sset_other by assumption. apply L.
+Qed.
+
+Lemma update_sound c a u :
+  Good c -> (match aget (xs c) a with None => true | Some (old, _) => upd_ok old u end) = true ->
+  op_sound c (c_update c a u).
+Proof.
+  intros [V L] Hp. unfold c_update, op_sound.
+  destruct (aget (xs c) a) as [[old l]|] eqn:E.
+  - pose proof (upd_ok_val _ _ _ _ (g_vals _ V _ _ E) Hp) as Hok. cbn [fst snd]. split.
+    + split; [apply goodV_update; assumption | apply goodL_same_list; assumption].
+    + unfold undo_all. cbn [fold_left]. apply vundo_update; assumption.
+  - cbn. split; [split; assumption|reflexivity].
+Qed.
+
+Lemma goodV_accts c x : GoodV c -> GoodV (c_accts c x).
+Proof. intros [A B C D]. constructor; assumption. Qed.
+
+Lemma sset_overwrite {A} (m : list (Z * A)) k x y : sset (sset m k x) k y = sset m k y.
+Proof.
+  induction m as [|[k2 z] r IH]; cbn.
+  - now rewrite Z.ltb_irrefl, Z.eqb_refl.
+  - destruct (Z.ltb_spec k k2); cbn.
+    + now rewrite Z.ltb_irrefl, Z.eqb_refl.
+    + destruct (Z.eqb_spec k k2) as [->|Hne]; cbn.
+      * now rewrite Z.ltb_irrefl, Z.eqb_refl.
+      * destruct (Z.ltb_spec k k2); [lia|]. destruct (Z.eqb_spec k k2); [lia|]. f_equal. apply IH.
+Qed.
+
+Lemma aget_sset_neq_none {A} (m : list (Z * A)) k x k' : aget m k' <> None -> aget (sset m k x) k' <> None.
+Proof.
+  intros H. destruct (Z.eq_dec k' k) as [->|Hne].
+  - rewrite aget_sset_same. discriminate.
+  - now rewrite aget_sset_other.
+Qed.
+
+Definition tokl (l : list dfrom) (d : Z) : Z := match dget l d with Some e => d_token e | None => 0 end.
+
+Lemma goodL_delegate c a d v l nv l' bal lst lst1 amt :
+  GoodV c -> GoodL c -> aget (xs c) a = Some (v, l) -> aget (xaccts c) d = Some (bal, lst) ->
+  (forall d', d' <> d -> dget l' d' = dget l d') ->
+  tokl l' d = tokl l d + amt ->
+  (forall e, In e l' -> d_addr e = d \/ In e l) ->
+  zsorted lst1 ->
+  (forall a', In a' lst1 <-> (if Z.eq_dec a' a then dget l' d <> None else In a' lst)) ->
+  GoodL (c_accts (c_update_validator c a (nv, l') (v, l)) (sset (xaccts c) d (bal + amt, lst1))).
+Proof.
+  intros V L Hx Hd H1 H2 H3 H4 H5.
+  unfold c_update_validator, c_set_validator, c_stat, c_index, c_xs, c_accts. constructor; cbn.
+  - apply ssorted_sset, L.
+  - intros d2 bal2 lst2. destruct (Z.eq_dec d2 d) as [->|Hne].
+    + rewrite aget_sset_same. intros H; inversion H; subst. assumption.
+    + rewrite aget_sset_other by assumption. apply L.
+  - intros d2 bal2 lst2 a2. destruct (Z.eq_dec d2 d) as [->|Hne].
+    + rewrite aget_sset_same. intros H; inversion H; subst. rewrite H5.
+      destruct (Z.eq_dec a2 a) as [->|Hna].
+      * rewrite aget_sset_same. split.
+        -- intros Hg. eexists; split; [reflexivity|exact Hg].
+        -- intros (x & Hx' & Hg). inversion Hx'; subst. exact Hg.
+      * rewrite aget_sset_other by assumption. apply (g_link _ L _ _ _ a2 Hd).
+    + rewrite aget_sset_other by assumption. intros Hd2. rewrite (g_link _ L _ _ _ a2 Hd2).
+      destruct (Z.eq_dec a2 a) as [->|Hna].
+      * rewrite aget_sset_same, Hx. split; intros (x & Hx' & Hg); inversion Hx'; subst; cbn in *;
+          (eexists; split; [reflexivity|]); cbn; [rewrite H1 | rewrite <- H1]; assumption.
+      * rewrite aget_sset_other by assumption. reflexivity.
+  - intros d2 bal2 lst2. rewrite (lsum_sset_present _ _ _ _ _ (g_sorted _ V) Hx).
+    destruct (Z.eq_dec d2 d) as [->|Hne].
+    + rewrite aget_sset_same. intros H; inversion H; subst.
+      rewrite <- (g_bal _ L _ _ _ Hd). unfold tokd; cbn. unfold tokl in H2. lia.
+    + rewrite aget_sset_other by assumption. intros Hd2.
+      rewrite <- (g_bal _ L _ _ _ Hd2). unfold tokd; cbn. rewrite H1 by assumption. lia.
+  - intros a2 x e. destruct (Z.eq_dec a2 a) as [->|Hna].
+    + rewrite aget_sset_same. intros H; inversion H; subst. cbn. intros Hin.
+      destruct (H3 _ Hin) as [Heq|Hin2].
+      * rewrite Heq, aget_sset_same. discriminate.
+      * apply aget_sset_neq_none. eapply (g_owner _ L _ _ _ Hx). exact Hin2.
+    + rewrite aget_sset_other by assumption. intros Hx2 Hin. apply aget_sset_neq_none.
+      eapply (g_owner _ L); eauto.
+Qed.
+
+Lemma set_total_ok a v l tok stk l' :
+  val_ok a (v, l) -> dl_ok l' ->
+  tok = v_stoken v + dsum d_token l' -> stk = v_sstake v + dsum d_stake l' ->
+  val_ok a (set_total v tok stk, l').
+Proof.
+  intros (H1 & H2 & H3 & H4 & H5 & H6 & H7 & H8 & H9 & H10) Hl Ht Hs. cbn [fst snd] in *.
+  apply norm_iff in H2 as (Ha & Hlen & Hd).
+  unfold val_ok; cbn [fst snd].
+  split; [exact H1|]. split; [apply norm_iff; cbn; auto|].
+  split; [exact H3|]. split; [cbn; lia|]. split; [cbn; lia|]. split; [cbn; lia|]. split; [cbn; lia|].
+  split; [exact Hl|]. split; cbn; lia.
+Qed.
+
+(* the three shapes of the delegator-side update *)
+Lemma delegator_undo c1 d bal lst amt lst1 ja :
+  ssorted (xaccts c1) -> aget (xaccts c1) d = Some (bal, lst) ->
+  (ja = [JDlgBal d bal; JDlgs d lst] \/ (ja = [JDlgBal d bal] /\ lst1 = lst)) ->
+  fold_left c_aundo1 ja (c_accts c1 (sset (xaccts c1) d (bal + amt, lst1))) = c1.
+Proof.
+  intros Hs Hd Hj. destruct c1 as [m idx st ac]; unfold c_accts; cbn in *.
+  destruct Hj as [->|[-> ->]]; cbn; rewrite !aget_sset_same; unfold c_accts; cbn;
+    rewrite ?aget_sset_same; cbn; rewrite ?sset_overwrite; f_equal; apply sset_same; assumption.
+Qed.
+
+Lemma delegate_sound c d a amt :
+  Good c ->
+  (match aget (xs c) a with
+   | None => true
+   | Some (v, l) =>
+     Z.eqb amt 0 ||
+     (match aget (xaccts c) d with Some _ => true | None => false end
+      && Z.leb 0 (match dget l d with Some e => d_token e | None => 0 end + amt))
+   end) = true ->
+  op_sound c (c_delegate c d a amt).
+Proof.
+  intros [V L] Hp. unfold c_delegate.
+  destruct (aget (xs c) a) as [[v l]|] eqn:Hx; [|cbn; split; [split; assumption|reflexivity]].
+  destruct (Z.eqb_spec amt 0) as [Hz|Hnz]; [cbn; split; [split; assumption|reflexivity]|].
+  cbn [orb] in Hp. apply andb_prop in Hp as [Hacc Hnn].
+  destruct (aget (xaccts c) d) as [[bal lst]|] eqn:Hd; [|discriminate]. clear Hacc.
+  pose proof (g_vals _ V _ _ Hx) as Hok.
+  assert (Hlok : dl_ok l) by apply Hok. destruct Hlok as [Hsorted Helems].
+  assert (Hlink : In a lst <-> dget l d <> None).
+  { rewrite (g_link _ L _ _ _ a Hd). split.
+    - intros (x & Hx' & Hg). rewrite Hx in Hx'. inversion Hx'; subst. exact Hg.
+    - intros Hg. eexists; split; [exact Hx|exact Hg]. }
+  pose proof (g_lst _ L _ _ _ Hd) as Hzs.
+  pose proof unit_pos as Hup.
+  destruct (dget l d) as [e|] eqn:Ed.
+  - (* existing delegation *)
+    destruct (dget_In _ _ _ Ed) as [Hin Hae]. destruct (Helems _ Hin) as [Hpos Hstk].
+    set (tok := d_token e + amt) in *. assert (0 <= tok) by lia.
+    destruct (d_empty (mkD d (tok / stake_unit) tok)) eqn:Em.
+    + (* removed *)
+      assert (Htok0 : tok = 0) by (unfold d_empty in Em; cbn in Em; lia).
+      assert (In a lst) as Hfound by (apply Hlink; discriminate).
+      unfold c_update_delegator. unfold c_update_validator at 1. unfold c_set_validator, c_stat, c_index, c_xs. cbn [xaccts].
+      rewrite Hd. apply mem_In in Hfound. rewrite Hfound. cbn [negb].
+      set (nv := set_total v _ _). set (l' := ddel l d).
+      assert (Hok' : val_ok a (nv, l')).
+      { apply (set_total_ok a v l); [exact Hok| | |].
+        - split; [apply dsorted_ddel, Hsorted|]. intros e0 H0. apply Helems. eapply In_ddel, H0.
+        - unfold l'. rewrite (dsum_ddel _ _ _ _ Ed). destruct Hok as (_&_&_&_&_&H6&_). cbn in H6. lia.
+        - unfold l'. rewrite (dsum_ddel _ _ _ _ Ed). destruct Hok as (_&_&_&_&_&_&H7&_). cbn in H7.
+          rewrite Htok0. change (0 / stake_unit) with 0. lia. }
+      split; cbn [fst snd].
+      * split.
+        -- apply goodV_accts. apply (goodV_update c a (nv, l') (v, l) V Hx Hok').
+        -- apply (goodL_delegate c a d v l nv l' bal lst (srem a lst) amt V L Hx Hd).
+           ++ intros d' Hne. apply dget_ddel_other. assumption.
+           ++ unfold tokl, l'. rewrite dget_ddel_same, Ed by assumption. lia.
+           ++ intros e0 H0. right. eapply In_ddel, H0.
+           ++ apply zsorted_srem, Hzs.
+           ++ intros a'. rewrite (In_srem _ _ _ Hzs). destruct (Z.eq_dec a' a) as [->|Hna].
+              ** unfold l'. rewrite dget_ddel_same by assumption. intuition congruence.
+              ** intuition.
+      * unfold undo_all. change (c_index _ _) with (c_update_validator c a (nv, l') (v, l)).
+        rewrite (delegator_undo (c_update_validator c a (nv, l') (v, l)) d bal lst amt (srem a lst)).
+        -- cbn [fold_left]. apply vundo_update; assumption.
+        -- apply L.
+        -- exact Hd.
+        -- left; reflexivity.
+    + (* updated *)
+      assert (Htokp : 0 < tok).
+      { unfold d_empty in Em; cbn in Em. destruct (Z.eq_dec tok 0) as [E0|]; [|lia].
+        rewrite E0 in Em. change (0 / stake_unit) with 0 in Em. cbn in Em. discriminate. }
+      assert (In a lst) as Hfound by (apply Hlink; discriminate).
+      unfold c_update_delegator. unfold c_update_validator at 1. unfold c_set_validator, c_stat, c_index, c_xs. cbn [xaccts].
+      rewrite Hd. apply mem_In in Hfound. rewrite Hfound. cbn [negb].
+      set (e' := mkD d (tok / stake_unit) tok). set (nv := set_total v _ _). set (l' := dset l e').
+      assert (Hae' : d_addr e' = d) by reflexivity.
+      assert (Ed' : dget l (d_addr e') = Some e) by (rewrite Hae'; exact Ed).
+      assert (Hok' : val_ok a (nv, l')).
+      { apply (set_total_ok a v l); [exact Hok| | |].
+        - split; [apply dsorted_dset, Hsorted|]. intros e0 H0. apply In_dset in H0 as [->|H0]; [|auto].
+          cbn. split; [lia|reflexivity].
+        - unfold l'. rewrite (dsum_dset_present _ _ _ _ Hsorted Ed'). destruct Hok as (_&_&_&_&_&H6&_). cbn in H6. cbn. lia.
+        - unfold l'. rewrite (dsum_dset_present _ _ _ _ Hsorted Ed'). destruct Hok as (_&_&_&_&_&_&H7&_). cbn in H7. cbn. lia. }
+      split; cbn [fst snd].
+      * split.
+        -- apply goodV_accts. apply (goodV_update c a (nv, l') (v, l) V Hx Hok').
+        -- apply (goodL_delegate c a d v l nv l' bal lst lst amt V L Hx Hd).
+           ++ intros d' Hne. apply dget_dset_other. cbn. assumption.
+           ++ unfold tokl, l'. rewrite <- Hae' at 1. rewrite dget_dset_same, Ed. cbn. lia.
+           ++ intros e0 H0. apply In_dset in H0 as [->|H0]; auto.
+           ++ exact Hzs.
+           ++ intros a'. destruct (Z.eq_dec a' a) as [->|Hna]; [|tauto].
+              unfold l'. rewrite <- Hae' at 1. rewrite dget_dset_same. apply mem_In in Hfound. intuition congruence.
+      * unfold undo_all. change (c_index _ _) with (c_update_validator c a (nv, l') (v, l)).
+        rewrite (delegator_undo (c_update_validator c a (nv, l') (v, l)) d bal lst amt lst).
+        -- cbn [fold_left]. apply vundo_update; assumption.
+        -- apply L.
+        -- exact Hd.
+        -- right; split; reflexivity.
+  - (* new delegation *)
+    assert (0 < amt) by lia. destruct (Z.ltb_spec amt 0) as [|_]; [lia|].
+    cbn [d_token d_stake]. rewrite !Z.add_0_l, Z.sub_0_r.
+    assert (Em : d_empty (mkD d (amt / stake_unit) amt) = false).
+    { unfold d_empty; cbn. lia. }
+    rewrite Em.
+    assert (~ In a lst) as Hnf by (intros Hf; apply Hlink in Hf; congruence).
+    unfold c_update_delegator. unfold c_update_validator at 1. unfold c_set_validator, c_stat, c_index, c_xs. cbn [xaccts].
+    rewrite Hd. assert (mem a lst = false) as Hm.
+    { destruct (mem a lst) eqn:E; [|reflexivity]. apply mem_In in E. contradiction. }
+    rewrite Hm. cbn [negb].
+    set (e' := mkD d (amt / stake_unit) amt). set (nv := set_total v _ _). set (l' := dset l e').
+    assert (Hae' : d_addr e' = d) by reflexivity.
+    assert (Ed' : dget l (d_addr e') = None) by (rewrite Hae'; exact Ed).
+    assert (Hok' : val_ok a (nv, l')).
+    { apply (set_total_ok a v l); [exact Hok| | |].
+      - split; [apply dsorted_dset, Hsorted|]. intros e0 H0. apply In_dset in H0 as [->|H0]; [|auto].
+        cbn. split; [lia|reflexivity].
+      - unfold l'. rewrite (dsum_dset_absent _ _ _ Ed'). destruct Hok as (_&_&_&_&_&H6&_). cbn in H6. cbn. lia.
+      - unfold l'. rewrite (dsum_dset_absent _ _ _ Ed'). destruct Hok as (_&_&_&_&_&_&H7&_). cbn in H7. cbn. lia. }
+    split; cbn [fst snd].
+    * split.
+      -- apply goodV_accts. apply (goodV_update c a (nv, l') (v, l) V Hx Hok').
+      -- apply (goodL_delegate c a d v l nv l' bal lst (sins a lst) amt V L Hx Hd).
+         ++ intros d' Hne. apply dget_dset_other. cbn. assumption.
+         ++ unfold tokl, l'. rewrite <- Hae' at 1. rewrite dget_dset_same, Ed. cbn. lia.
+         ++ intros e0 H0. apply In_dset in H0 as [->|H0]; auto.
+         ++ apply zsorted_sins, Hzs.
+         ++ intros a'. rewrite In_sins. destruct (Z.eq_dec a' a) as [->|Hna].
+            ** unfold l'. rewrite <- Hae' at 1. rewrite dget_dset_same. intuition congruence.
+            ** intuition.
+    * unfold undo_all. change (c_index _ _) with (c_update_validator c a (nv, l') (v, l)).
+      rewrite (delegator_undo (c_update_validator c a (nv, l') (v, l)) d bal lst amt (sins a lst)).
+      -- cbn [fold_left]. apply vundo_update; assumption.
+      -- apply L.
+      -- exact Hd.
+      -- left; reflexivity.
+Qed.
+
+(* ---- IntermediateRoot ------------------------------------------------------ *)
+
+Lemma invalid_empty a v l : val_ok a (v, l) -> is_invalid v = true -> truncated_invalid v = false -> l = [].
+Proof.
+  intros Hok Hi Ht. unfold truncated_invalid in Ht. rewrite Hi in Ht. cbn in Ht.
+  assert (v_token v = 0) by lia.
+  destruct Hok as (_&_&_&H4&_&H6&_&[_ H8]&_). cbn [fst snd] in *.
+  apply dsum_pos_nil; [intros e He; apply H8, He|].
+  pose proof (dsum_token_nonneg _ H8). lia.
+Qed.
+
+Lemma good_root_vals dirty : forall c,
+  Good c -> (forall a x, aget (xs c) a = Some x -> truncated_invalid (fst x) = false) ->
+  Good (c_root_vals c dirty).
+Proof.
+  induction dirty as [|a r IH]; intros c [V L] Hp; cbn [c_root_vals]; [split; assumption|].
+  destruct (aget (xs c) a) as [[v l]|] eqn:Hx; [|apply IH; [split; assumption|assumption]].
+  destruct (is_invalid v) eqn:Hi.
+  - pose proof (invalid_empty _ _ _ (g_vals _ V _ _ Hx) Hi (Hp _ _ Hx)) as ->.
+    apply IH.
+    + split.
+      * apply (goodV_delete c a (v, []) V Hx).
+      * unfold c_stat, c_index, c_xs. constructor; cbn.
+        -- apply L.
+        -- apply L.
+        -- intros d bal lst a' Hd. rewrite (g_link _ L _ _ _ a' Hd).
+           destruct (Z.eq_dec a' a) as [->|Hne].
+           ++ rewrite aget_adel_same by apply V. rewrite Hx.
+              split; intros (x & Hx' & Hg); [inversion Hx'; subst; cbn in Hg; congruence|discriminate].
+           ++ rewrite aget_adel_other by assumption. reflexivity.
+        -- intros d bal lst Hd. rewrite (lsum_adel _ _ _ _ Hx). unfold tokd at 2; cbn.
+           rewrite <- (g_bal _ L _ _ _ Hd). lia.
+        -- intros a' x e. destruct (Z.eq_dec a' a) as [->|Hne].
+           ++ rewrite aget_adel_same by apply V. discriminate.
+           ++ rewrite aget_adel_other by assumption. apply L.
+    + cbn. intros a' x. destruct (Z.eq_dec a' a) as [->|Hne].
+      * rewrite aget_adel_same by apply V. discriminate.
+      * rewrite aget_adel_other by assumption. apply Hp.
+  - apply IH; [|exact Hp].
+    rewrite (index_present _ _ _ V Hx). destruct c; split; assumption.
+Qed.
+
+(* ---- undo: account part and validator part are independent ----------------- *)
+
+Definition l_aundo1 (ac : list (Z * xacct)) (e : aentry) : list (Z * xacct) :=
+  match e with
+  | JCreate d => adel ac d
+  | JBal _ => ac
+  | JDlgBal d prev => match aget ac d with None => ac | Some (_, lst) => sset ac d (prev, lst) end
+  | JDlgs d prev => match aget ac d with None => ac | Some (bal, _) => sset ac d (bal, prev) end
+  end.
+
+Lemma c_accts_eta c : c_accts c (xaccts c) = c.
+Proof. destruct c; reflexivity. Qed.
+
+Lemma c_aundo1_l c e : c_aundo1 c e = c_accts c (l_aundo1 (xaccts c) e).
+Proof.
+  destruct e; cbn; try reflexivity.
+  - now rewrite c_accts_eta.
+  - destruct (aget (xaccts c) a) as [[? ?]|]; [reflexivity|now rewrite c_accts_eta].
+  - destruct (aget (xaccts c) a) as [[? ?]|]; [reflexivity|now rewrite c_accts_eta].
+Qed.
+
+Lemma c_vundo1_accts c x f : c_vundo1 (c_accts c x) f = c_accts (c_vundo1 c f) x.
+Proof.
+  destruct f; cbn.
+  - destruct (aget (xs c) a) as [[? ?]|]; reflexivity.
+  - reflexivity.
+Qed.
+
+Lemma c_vundo1_xaccts c f : xaccts (c_vundo1 c f) = xaccts c.
+Proof.
+  destruct f; cbn; [|reflexivity]. destruct (aget (xs c) a) as [[? ?]|]; reflexivity.
+Qed.
+
+Lemma undo1_comm c e f : c_vundo1 (c_aundo1 c e) f = c_aundo1 (c_vundo1 c f) e.
+Proof. now rewrite !c_aundo1_l, c_vundo1_accts, c_vundo1_xaccts. Qed.
+
+Lemma fold_vundo_aundo1 jv : forall c e, fold_left c_vundo1 jv (c_aundo1 c e) = c_aundo1 (fold_left c_vundo1 jv c) e.
+Proof.
+  induction jv as [|f r IH]; intros c e; cbn; [reflexivity|]. now rewrite undo1_comm, IH.
+Qed.
+
+Lemma c_aundo_fold_vundo ja : forall c jv n,
+  fst (c_aundo (fold_left c_vundo1 jv c) ja n) = fold_left c_vundo1 jv (fst (c_aundo c ja n)) /\
+  snd (c_aundo (fold_left c_vundo1 jv c) ja n) = snd (c_aundo c ja n).
+Proof.
+  induction ja as [|e r IH]; intros c jv n; cbn [c_aundo]; [split; reflexivity|].
+  destruct (Nat.ltb n (length (e :: r))); [|split; reflexivity].
+  rewrite <- fold_vundo_aundo1. apply IH.
+Qed.
+
+Lemma c_vundo_aundo1 jv : forall c e n,
+  fst (c_vundo (c_aundo1 c e) jv n) = c_aundo1 (fst (c_vundo c jv n)) e /\
+  snd (c_vundo (c_aundo1 c e) jv n) = snd (c_vundo c jv n).
+Proof.
+  induction jv as [|f r IH]; intros c e n; cbn [c_vundo]; [split; reflexivity|].
+  destruct (Nat.ltb n (length (f :: r))); [|split; reflexivity].
+  rewrite undo1_comm. apply IH.
+Qed.
+
+(* prefix of new entries *)
+Lemma c_aundo_app new : forall c old n, (n <= length old)%nat ->
+  c_aundo c (new ++ old) n = c_aundo (fold_left c_aundo1 new c) old n.
+Proof.
+  induction new as [|e r IH]; intros c old n Hn; [reflexivity|].
+  cbn [app c_aundo fold_left].
+  destruct (Nat.ltb_spec n (length (e :: r ++ old))) as [_|H]; [|cbn in H; rewrite app_length in H; lia].
+  apply IH, Hn.
+Qed.
+
+Lemma c_vundo_app new : forall c old n, (n <= length old)%nat ->
+  c_vundo c (new ++ old) n = c_vundo (fold_left c_vundo1 new c) old n.
+Proof.
+  induction new as [|e r IH]; intros c old n Hn; [reflexivity|].
+  cbn [app c_vundo fold_left].
+  destruct (Nat.ltb_spec n (length (e :: r ++ old))) as [_|H]; [|cbn in H; rewrite app_length in H; lia].
+  apply IH, Hn.
+Qed.
+
+Lemma c_aundo_split j : forall c n, (n <= length j)%nat ->
+  exists pre, j = pre ++ snd (c_aundo c j n) /\ fst (c_aundo c j n) = fold_left c_aundo1 pre c
+              /\ length (snd (c_aundo c j n)) = n.
+Proof.
+  induction j as [|e r IH]; intros c n Hn; cbn [c_aundo].
+  - exists []. cbn in *. repeat split; lia.
+  - destruct (Nat.ltb_spec n (length (e :: r))) as [H|H].
+    + destruct (IH (c_aundo1 c e) n) as (pre & H1 & H2 & H3); [cbn in H; lia|].
+      exists (e :: pre). cbn. repeat split; [f_equal; exact H1|exact H2|exact H3].
+    + exists []. cbn in *. repeat split; lia.
+Qed.
+
+Lemma c_vundo_split j : forall c n, (n <= length j)%nat ->
+  exists pre, j = pre ++ snd (c_vundo c j n) /\ fst (c_vundo c j n) = fold_left c_vundo1 pre c
+              /\ length (snd (c_vundo c j n)) = n.
+Proof.
+  induction j as [|e r IH]; intros c n Hn; cbn [c_vundo].
+  - exists []. cbn in *. repeat split; lia.
+  - destruct (Nat.ltb_spec n (length (e :: r))) as [H|H].
+    + destruct (IH (c_vundo1 c e) n) as (pre & H1 & H2 & H3); [cbn in H; lia|].
+      exists (e :: pre). cbn. repeat split; [f_equal; exact H1|exact H2|exact H3].
+    + exists []. cbn in *. repeat split; lia.
+Qed.
+
+Lemma c_aundo_full c j : c_aundo c j (length j) = (c, j).
+Proof. destruct j; cbn [c_aundo]; [reflexivity|]. now rewrite Nat.ltb_irrefl. Qed.
+Lemma c_vundo_full c j : c_vundo c j (length j) = (c, j).
+Proof. destruct j; cbn [c_vundo]; [reflexivity|]. now rewrite Nat.ltb_irrefl. Qed.
+
+Lemma undo_push c' ja jv c xa xv aj vj :
+  undo_all c' ja jv = c -> (aj <= length xa)%nat -> (vj <= length xv)%nat ->
+  c_undo c' (ja ++ xa) (jv ++ xv) aj vj = c_undo c xa xv aj vj.
+Proof.
+  intros Hu Ha Hv. unfold c_undo. rewrite c_aundo_app, c_vundo_app by assumption.
+  destruct (c_aundo_fold_vundo xa (fold_left c_aundo1 ja c') jv aj) as [H1 _].
+  rewrite <- H1. unfold undo_all in Hu. rewrite Hu. reflexivity.
+Qed.
+
+Lemma undo_compose c ja jv aj vj aj' vj' :
+  (aj <= length ja)%nat -> (vj <= length jv)%nat -> (aj' <= aj)%nat -> (vj' <= vj)%nat ->
+  c_undo (fst (c_vundo (fst (c_aundo c ja aj)) jv vj)) (snd (c_aundo c ja aj))
+         (snd (c_vundo (fst (c_aundo c ja aj)) jv vj)) aj' vj'
+  = c_undo c ja jv aj' vj'.
+Proof.
+  intros Ha Hv Ha' Hv'. unfold c_undo.
+  destruct (c_aundo_split ja c aj Ha) as (pa & Ea & Fa & La).
+  destruct (c_vundo_split jv (fst (c_aundo c ja aj)) vj Hv) as (pv & Ev & Fv & Lv).
+  set (ra := snd (c_aundo c ja aj)) in *. set (c1 := fst (c_aundo c ja aj)) in *.
+  set (rv := snd (c_vundo c1 jv vj)) in *.
+  rewrite Fv.
+  destruct (c_aundo_fold_vundo ra c1 pv aj') as [H1 _]. rewrite H1.
+  (* account part: undoing further from c1/ra equals undoing from c/ja *)
+  assert (Hacc : fst (c_aundo c1 ra aj') = fst (c_aundo c ja aj')).
+  { rewrite Ea. rewrite c_aundo_app by lia. now rewrite <- Fa. }
+  rewrite Hacc.
+  rewrite Ev. rewrite c_vundo_app by lia. reflexivity.
+Qed.
+
+(* ---- the invariant of the whole abstract state, including the revisions ---- *)
+
+Fixpoint revs_mono (la lv : nat) (l : list (Z * (nat * nat))) : Prop :=
+  match l with
+  | [] => True
+  | (_, (aj, vj)) :: r => (aj <= la)%nat /\ (vj <= lv)%nat /\ revs_mono aj vj r
+  end.
+
+Lemma revs_mono_weaken l : forall la lv la' lv', (la <= la')%nat -> (lv <= lv')%nat ->
+  revs_mono la lv l -> revs_mono la' lv' l.
+Proof. destruct l as [|[id [aj vj]] r]; cbn; intros; [exact I|]. intuition lia. Qed.
+
+Lemma revs_mono_In l : forall la lv id aj vj, revs_mono la lv l -> In (id, (aj, vj)) l -> (aj <= la)%nat /\ (vj <= lv)%nat.
+Proof.
+  induction l as [|[id0 [aj0 vj0]] r IH]; cbn; intros la lv id aj vj H Hin; [tauto|].
+  destruct H as (H1 & H2 & H3). destruct Hin as [Heq|Hin].
+  - inversion Heq; subst. lia.
+  - destruct (IH _ _ _ _ _ H3 Hin). lia.
+Qed.
+
+Lemma drop_revs_spec l : forall la lv id aj vj, revs_mono la lv l -> aget l id = Some (aj, vj) ->
+  In (id, (aj, vj)) l /\ revs_mono aj vj (drop_revs l id) /\ (forall p, In p (drop_revs l id) -> In p l).
+Proof.
+  induction l as [|[id0 [aj0 vj0]] r IH]; cbn; intros la lv id aj vj H Hg; [discriminate|].
+  destruct H as (H1 & H2 & H3). destruct (Z.eqb_spec id0 id) as [->|Hne].
+  - inversion Hg; subst. repeat split; auto.
+  - destruct (IH _ _ _ _ _ H3 Hg) as (I1 & I2 & I3). repeat split; auto.
+Qed.
+
+Definition J (s : astate) : Prop :=
+  Good (core s) /\ revs_mono (length (xaj s)) (length (xvj s)) (xrevs s) /\
+  forall id aj vj, In (id, (aj, vj)) (xrevs s) -> Good (c_undo (core s) (xaj s) (xvj s) aj vj).
+
+Lemma J_init : J ainit.
+Proof.
+  split; [|split; [exact I|intros ? ? ? []]].
+  split; constructor; cbn; try exact I; try reflexivity; try discriminate.
+Qed.
+
+Lemma J_push s e : J s -> op_sound (core s) e -> J (a_push s e).
+Proof.
+  intros (G & M & H) [Hg Hu]. destruct e as [[c' ja] jv]. cbn [fst snd] in *.
+  unfold a_push. split; [exact Hg|]. cbn [core xaj xvj xrevs]. split.
+  - eapply revs_mono_weaken; [| |exact M]; rewrite app_length; lia.
+  - intros id aj vj Hin. destruct (revs_mono_In _ _ _ _ _ _ M Hin).
+    rewrite (undo_push c' ja jv (core s)) by assumption. apply (H _ _ _ Hin).
+Qed.
+
+Lemma pre_root_vals s : forallb (fun p => negb (truncated_invalid (fst (snd p)))) (xs (core s)) = true ->
+  forall a x, aget (xs (core s)) a = Some x -> truncated_invalid (fst x) = false.
+Proof.
+  intros H a x Hx. apply aget_In in Hx. rewrite forallb_forall in H. specialize (H _ Hx). cbn in H.
+  destruct (truncated_invalid (fst x)); [discriminate|reflexivity].
+Qed.
+
+Theorem J_step s o : J s -> a_pre s o = true -> J (a_step s o).
+Proof.
+  intros HJ Hp. destruct o; cbn [a_step a_pre] in *.
+  - apply J_push; [assumption|]. apply fund_sound, HJ.
+  - apply J_push; [assumption|]. apply create_sound; [apply HJ|lia..].
+  - apply J_push; [assumption|]. apply update_sound; [apply HJ|assumption].
+  - assumption.
+  - apply J_push; [assumption|]. apply delegate_sound; [apply HJ|assumption].
+  - (* snapshot *)
+    destruct HJ as (G & M & H). unfold a_snapshot. split; [exact G|]. cbn [core xaj xvj xrevs]. split.
+    + cbn. repeat split; [lia..|exact M].
+    + intros id0 aj vj [Heq|Hin]; [|apply (H _ _ _ Hin)].
+      inversion Heq; subst. unfold c_undo. rewrite c_aundo_full. cbn [fst]. rewrite c_vundo_full. exact G.
+  - (* revert *)
+    destruct HJ as (G & M & H). unfold a_revert.
+    destruct (aget (xrevs s) id) as [[aj vj]|] eqn:E; [|discriminate].
+    destruct (drop_revs_spec _ _ _ _ _ _ M E) as (Hin & M' & Hsub).
+    destruct (revs_mono_In _ _ _ _ _ _ M Hin) as [Ha Hv].
+    destruct (c_aundo (core s) (xaj s) aj) as [c1 ra] eqn:E1.
+    destruct (c_vundo c1 (xvj s) vj) as [c2 rv] eqn:E2.
+    assert (Hc1 : c1 = fst (c_aundo (core s) (xaj s) aj)) by now rewrite E1.
+    assert (Hra : ra = snd (c_aundo (core s) (xaj s) aj)) by now rewrite E1.
+    assert (Hc2 : c2 = fst (c_vundo c1 (xvj s) vj)) by now rewrite E2.
+    assert (Hrv : rv = snd (c_vundo c1 (xvj s) vj)) by now rewrite E2.
+    destruct (c_aundo_split (xaj s) (core s) aj Ha) as (_ & _ & _ & La).
+    destruct (c_vundo_split (xvj s) c1 vj Hv) as (_ & _ & _ & Lv).
+    rewrite <- Hra in La. rewrite <- Hrv in Lv.
+    split; [|split]; cbn [core xaj xvj xrevs].
+    + specialize (H _ _ _ Hin). unfold c_undo in H. rewrite <- Hc1, <- Hc2 in H. exact H.
+    + rewrite La, Lv. exact M'.
+    + intros id' aj' vj' Hin'. destruct (revs_mono_In _ _ _ _ _ _ M' Hin') as [Ha' Hv'].
+      subst c2 rv ra. subst c1. rewrite undo_compose by assumption. apply (H _ _ _ (Hsub _ Hin')).
+  - (* finalise *)
+    destruct HJ as (G & M & H). unfold a_finalise. split; [exact G|]. split; [exact I|intros ? ? ? []].
+  - (* root *)
+    destruct HJ as (G & M & H). unfold a_root, a_finalise. cbn [core xdirty].
+    split; [|split; [exact I|intros ? ? ? []]]. cbn [core].
+    apply good_root_vals; [exact G|]. apply pre_root_vals, Hp.
+  - (* commit + reload *)
+    destruct HJ as (G & M & H). unfold a_setnext, a_root, a_finalise. cbn [core xdirty xaj xvj xrevs].
+    split; [|split; [exact I|intros ? ? ? []]].
+    apply good_root_vals; [exact G|]. apply pre_root_vals, Hp.
+  - (* copy *)
+    destruct HJ as (G & M & H). unfold a_setnext, a_finalise. cbn [core xdirty xaj xvj xrevs].
+    split; [exact G|]. split; [exact I|intros ? ? ? []].
+  - assumption.
 Qed.
